@@ -8,7 +8,8 @@ props=${@:-$prop}
 wt=/tmp/seedwt-$id
 git -C /repo worktree remove --force $wt 2>/dev/null
 git -C /repo worktree add --detach $wt HEAD -q || exit 2
-git -C $wt apply /verif/seeded/$id/patch.diff || { echo "$id: patch does not apply"; git -C /repo worktree remove --force $wt; exit 2; }
+pf=/verif/seeded/$id/patch.diff; ported=$(ls /verif/seeded/$id/patch.ported*.diff 2>/dev/null | head -1); git -C $wt apply --check $pf 2>/dev/null || { [ -n "$ported" ] && pf=$ported; }
+git -C $wt apply $pf || { echo "$id: patch does not apply"; git -C /repo worktree remove --force $wt; exit 2; }
 res=""
 for p in $props; do
   VERIF_REPO=$wt timeout 1500 ./check $p > /tmp/seedrun.$id.log 2>&1; rc=$?
